@@ -127,3 +127,44 @@ impl VFromBytes<8> for u64 {
     #[verifier::external_body]
     fn v_from_be_bytes(a: [u8; 8]) -> (r: u64) { u64::from_be_bytes(a) }
 }
+
+// two's complement views of signed integers (big-endian byte conversions of i64 / i32)
+pub open spec fn i64_nat(v: i64) -> nat { if v >= 0 { v as nat } else { (v + 0x1_0000_0000_0000_0000) as nat } }
+pub open spec fn nat_i64(n: nat) -> i64 { if n < 0x8000_0000_0000_0000 { n as i64 } else { (n - 0x1_0000_0000_0000_0000) as i64 } }
+pub open spec fn i32_nat(v: i32) -> nat { if v >= 0 { v as nat } else { (v + 0x1_0000_0000) as nat } }
+pub open spec fn nat_i32(n: nat) -> i32 { if n < 0x8000_0000 { n as i32 } else { (n - 0x1_0000_0000) as i32 } }
+impl VFromBytes<8> for i64 {
+    open spec fn v_of_nat(v: nat) -> i64 { nat_i64(v) }
+    #[verifier::external_body]
+    fn v_from_be_bytes(a: [u8; 8]) -> (r: i64) { i64::from_be_bytes(a) }
+}
+impl VFromBytes<4> for i32 {
+    open spec fn v_of_nat(v: nat) -> i32 { nat_i32(v) }
+    #[verifier::external_body]
+    fn v_from_be_bytes(a: [u8; 4]) -> (r: i32) { i32::from_be_bytes(a) }
+}
+/// R19: `.try_into()` from a byte slice / Vec<u8> to a byte array: Ok iff the lengths agree (the error value is opaque)
+pub trait VTryInto<T>: Sized {
+    spec fn v_src(&self) -> Seq<u8>;
+    spec fn v_dst(t: &T) -> Seq<u8>;
+    spec fn v_len() -> nat;
+    fn v_try_into(self) -> (r: Result<T, Self>)
+        ensures (self.v_src().len() == Self::v_len()) == (r is Ok), r matches Ok(a) ==> Self::v_dst(&a) == self.v_src();
+}
+impl<const N: usize> VTryInto<[u8; N]> for &[u8] {
+    open spec fn v_src(&self) -> Seq<u8> { self@ }
+    open spec fn v_dst(t: &[u8; N]) -> Seq<u8> { t@ }
+    open spec fn v_len() -> nat { N as nat }
+    #[verifier::external_body]
+    fn v_try_into(self) -> (r: Result<[u8; N], Self>) { unimplemented!() }
+}
+impl<const N: usize> VTryInto<[u8; N]> for Vec<u8> {
+    open spec fn v_src(&self) -> Seq<u8> { self@ }
+    open spec fn v_dst(t: &[u8; N]) -> Seq<u8> { t@ }
+    open spec fn v_len() -> nat { N as nat }
+    #[verifier::external_body]
+    fn v_try_into(self) -> (r: Result<[u8; N], Self>) { unimplemented!() }
+}
+pub broadcast proof fn lemma_be_bytes_len_b(v: nat, n: nat)
+    ensures #[trigger] be_bytes(v, n).len() == n
+{ lemma_be_bytes_len(v, n); }
